@@ -16,6 +16,12 @@
            for ttl x protocol x payload length x address pair classes
      echo4 the ICMPv4 echo message of Session.ICMP4SendEchoRequest (checksum field zero)
      echo6 IPv6 pseudo-header ++ ICMPv6 echo message of Session.ICMP6SendEchoRequest (checksum field zero)
+     fold  strings constructed so that the unfolded sum needs exactly 0, 1 or 2 folding steps (FoldsNeeded), in the
+           big-endian reading of the definition and in the little-endian reading of the library's accumulator
+     crit6 pseudo-header ++ ICMPv6 echo message with data lengths that give ICMPv6 lengths 198, 199, 255, 256, 454, 511,
+           1000, 1400, whose echo id is solved (Sub1c) so that the total one's-complement sum is a prescribed critical
+           value (tiny, negative zero, byte swaps): the totals on which an implementation that adds the pseudo-header
+           words separately and folds once too few goes wrong
      pair6 the same message as echo6, to be sent directly after one other transmission (`pre`): Stored is a function of
            the bytes alone, so the expected bytes do not depend on what the session sent before (the transmit buffers
            are pooled; the echo message is the only ICMPv6 message of odd length) *)
@@ -25,7 +31,7 @@ CONSTANTS RawMax,      \* 0..2
           RawStride,   \* length-2 strings <<x, y>> are emitted when (x*256+y) % RawStride = 0 or x,y are boundary bytes
           PatLens,     \* set of lengths for the pattern family
           AllPosUpTo,  \* lengths <= AllPosUpTo perturb every word position, longer ones the first / last four
-          Families     \* subset of {"raw", "pat", "hdr", "echo4", "echo6", "pair6"}
+          Families     \* subset of {"raw", "pat", "hdr", "echo4", "echo6", "pair6", "fold", "crit6"}
 
 VARIABLE d
 
@@ -77,6 +83,35 @@ Echo4Set == {[k |-> "echo4", n |-> id, car |-> sq, pos |-> 0, val |-> 0] : id \i
 Echo6Set == {[k |-> "echo6", n |-> id, car |-> sq, pos |-> 0, val |-> ap[1] * 16 + ap[2]] :
                id \in IdSeq, sq \in {1, 256, 65535}, ap \in V6Pairs}
 
+\* ---- fold classes.  nw = number of complete words, tail byte (odd n) = 0.
+\*   class 0: one word v, rest zero                                  (sum v < 2^16)
+\*   class 1: words 0x8000+v, 0x8001, rest zero                      (sum 2^16 + v + 1: one fold)
+\*   class 2: nw-1 words 0xffff and one word w with 1 <= w <= nw-2   (sum (nw-1)*0xffff + w: hi + lo = 0xffff + w)
+\* reading "be": the words are big-endian as in Words(b); reading "le": every word is byte-swapped, so that the
+\* library's little-endian accumulator (MechAcc) sees the same numbers.
+FoldLens == {6, 7, 8, 20, 21, 40, 64, 200, 208, 1500}
+FoldSet == {[k |-> "fold", n |-> n, car |-> c, pos |-> rd, val |-> v] : n \in FoldLens, c \in 0..2, rd \in 0..1, v \in 1..2}
+FoldWord(x, j) ==
+  LET nw == x.n \div 2
+      w  == CASE x.car = 0 -> IF j = 1 THEN x.val * 32767 ELSE 0
+              [] x.car = 1 -> IF j = 1 THEN 32768 + x.val ELSE IF j = 2 THEN 32769 ELSE 0
+              [] x.car = 2 -> IF j = nw THEN (IF x.val = 1 THEN 1 ELSE nw - 2) ELSE 65535
+  IN  IF x.pos = 0 THEN w ELSE Swap(w)
+FoldBytes(x) == [i \in 1..x.n |-> IF i > 2 * (x.n \div 2) THEN 0
+                                 ELSE IF i % 2 = 1 THEN FoldWord(x, (i + 1) \div 2) \div 256
+                                 ELSE FoldWord(x, i \div 2) % 256]
+
+\* ---- critical totals of the ICMPv6 pseudo-header sum
+CritData == {190, 191, 247, 248, 446, 503, 992, 1392}
+CritTotals == {1, 2, 255, 256, 512, 32768, 65023, 65279, 65534, 65535}
+Crit6Set == {[k |-> "crit6", n |-> dl, car |-> t, pos |-> 0, val |-> ap[1] * 16 + ap[2]] :
+               dl \in CritData, t \in CritTotals, ap \in {<<1, 2>>, <<3, 5>>}}
+CritMsg(id, dl) == <<128, 0, 0, 0>> \o Be16(id) \o <<0, 1>> \o [i \in 1..dl |-> (i * 7 + 3) % 256]
+CritBytes(x) ==
+  LET ph   == Pseudo6(V6[x.val \div 16], V6[x.val % 16], 8 + x.n)
+      base == Sum(ph \o CritMsg(0, x.n))
+  IN  ph \o CritMsg(Sub1c(x.car, base), x.n)
+
 \* the transmission that precedes the echo request of a pair6 vector
 PreFns == <<"ICMP6SendNeighbourSolicitation", "ICMP6SendNeighborAdvertisement", "ICMP6SendRouterAdvertisement",
             "ICMP6SendRouterSolicitation", "ICMP6SendEchoRequest", "ICMP4SendEchoRequest">>
@@ -84,6 +119,7 @@ Pair6Set == {[k |-> "pair6", n |-> id, car |-> 1, pos |-> pf, val |-> ap[1] * 16
                id \in {1, 4660, 65535}, pf \in 1..Len(PreFns), ap \in V6Pairs}
 
 Descriptors ==
+  (IF "fold" \in Families THEN FoldSet ELSE {}) \cup (IF "crit6" \in Families THEN Crit6Set ELSE {}) \cup
   (IF "pair6" \in Families THEN Pair6Set ELSE {}) \cup
   (IF "raw" \in Families THEN RawSet ELSE {}) \cup (IF "pat" \in Families THEN PatSet ELSE {}) \cup
   (IF "hdr" \in Families THEN HdrSet ELSE {}) \cup (IF "echo4" \in Families THEN Echo4Set ELSE {}) \cup
@@ -120,6 +156,8 @@ Bytes(x) ==
   CASE x.k = "raw" -> IF x.n = 0 THEN <<>> ELSE IF x.n = 1 THEN <<x.pos>> ELSE <<x.pos, x.val>>
     [] x.k = "pat" -> PatBytes(x)
     [] x.k = "hdr" -> HdrBytes(x)
+    [] x.k = "fold" -> FoldBytes(x)
+    [] x.k = "crit6" -> CritBytes(x)
     [] x.k = "echo4" -> EchoMsg(8, x.n, x.car)
     [] x.k \in {"echo6", "pair6"} -> LET m == EchoMsg(128, x.n, x.car)
                         IN  Pseudo6(V6[x.val \div 16], V6[x.val % 16], Len(m)) \o m
@@ -135,13 +173,19 @@ Lemmas ==
   IN  /\ MechConforms(b)
       /\ SplitIndependent(b, SplitPoints(n))
       /\ VerifyZero(b, EvenOffsets(n))
+      \* the constructions deliver what they promise
+      /\ d.k = "fold" => (IF d.pos = 0 THEN FoldsNeeded(USum(b)) ELSE FoldsNeeded(MechAcc(b))) = d.car
+      /\ d.k = "crit6" => Sum(b) = d.car
 
 Export ==
   LET b == Bytes(d) \o <<>>
-  IN  PrintT(ToJson([k |-> d.k, b |-> b, e |-> Stored(b), pre |-> IF d.k = "pair6" THEN PreFns[d.pos] ELSE ""]))
+  IN  PrintT(ToJson([k |-> d.k, b |-> b, e |-> Stored(b), pre |-> IF d.k = "pair6" THEN PreFns[d.pos] ELSE "",
+                         fb |-> FoldsNeeded(USum(b)), fm |-> FoldsNeeded(MechAcc(b))]))
 
 ASSUME CarryFold(800)
 ASSUME TwoFolds
+ASSUME FoldClasses
+ASSUME ThreeTermTotals
 
 Init == d \in Descriptors
 Next == FALSE /\ UNCHANGED d
